@@ -73,6 +73,9 @@ class Interp:
         self.mutated = False
         self.steps = 0
         self.runs = []
+        # what each (configuration, flag) returned the FIRST time it was run on the current shared inputs: whatever
+        # happens in between (other runs, runs under a multiple of the scheme, reads), the same call gives it again
+        self.first = {}
 
     def fresh(self):
         return lib.mk_dataset(self.raw, name="shared"), lib.mk_scheme(self.scheme)
@@ -109,13 +112,46 @@ class Interp:
     def apply(self, op):
         self.steps += 1
         kind = op["op"]
-        if kind == "run":
+        if kind == "run" and op.get("k"):
+            # a run under a MULTIPLE of the shared scheme (a scheme object of its own): nothing about it may stick
+            # it is sandwiched between two runs under the shared scheme itself, which must agree
+            sk = lib.mk_scheme(gen.scale(self.scheme, op["k"]))
+            sta, ca = self._run(op, self.d, self.s, shared=True)
+            va = (cons_view(ca), round(float(ca.kemeny_score), 9)) if sta == "ok" else None
+            st1, c1 = self._run(op, self.d, sk, shared=True)
+            if st1 == "ok" and not self.mutated:
+                # shared and fresh objects live in one process, so state kept at module level would fool a comparison
+                # between them: the score announced for the run under the multiple is compared with the definition
+                inst = oracle.Instance(self.raw, gen.scale(self.scheme, op["k"]))
+                for r in c1.consensus_rankings:
+                    want = inst.score(lib.model_of_ranking(r))
+                    if not lib.approx_equal(c1.kemeny_score, want, 1e-6):
+                        raise Violation("%s run under %r times the shared scheme, right after a run under the scheme "
+                                        "itself, announces the score %r for %s; by the definition it is %s" % (
+                                            op["config"], op["k"], c1.kemeny_score, r, want))
+            stb, cb = self._run(op, self.d, self.s, shared=True)
+            vb = (cons_view(cb), round(float(cb.kemeny_score), 9)) if stb == "ok" else None
+            self.check_unchanged("running %s under %r times the scheme" % (op["config"], op["k"]))
+            if not configs.BY_NAME[op["config"]].rng and (sta, va) != (stb, vb):
+                raise Violation("%s returned %s %s, then (after a run of the same configuration under %r times the "
+                                "scheme) %s %s on the same inputs" % (op["config"], sta, va, op["k"], stb, vb))
+            self.runs.append("scaled")
+        elif kind == "run":
             st1, c1 = self._run(op, self.d, self.s, shared=True)
             self.check_unchanged("running %s" % op["config"])
             fd, fs = self.fresh()
             st2, c2 = self._run(op, fd, fs, reseed=7)
             if st1 != st2:
                 raise Violation("%s on shared objects: %s, on fresh copies: %s" % (op["config"], st1, st2))
+            if st1 == "ok" and not configs.BY_NAME[op["config"]].rng:
+                key = (op["config"], op["env"], op["flag"])
+                now = (cons_view(c1), round(float(c1.kemeny_score), 9))
+                if key not in self.first:
+                    self.first[key] = (now, self.steps)
+                elif self.first[key][0] != now:
+                    raise Violation("%s (at most one ranking: %s) returned %s at step %d of this history and %s at step "
+                                    "%d, on the same unchanged inputs" % (op["config"], op["flag"], self.first[key][0],
+                                                                          self.first[key][1], now, self.steps))
             if st1 == "ok" and self.mutated:
                 v1 = cons_view(c1)
                 if configs.BY_NAME[op["config"]].exact and abs(float(c1.kemeny_score) - float(c2.kemeny_score)) > 1e-9:
@@ -143,8 +179,18 @@ class Interp:
         elif kind == "read":
             if self.consensus:
                 c1, c2 = self.consensus[op["idx"] % len(self.consensus)]
+                seen_before = cons_view(c1)
                 a = (c1.kemeny_score, c1.description().replace("shared", ""), str(c1))
                 b = (c2.kemeny_score, c2.description().replace("shared", ""), str(c2))
+                # the other read-only accessors of a consensus: top-k queries, iteration, features
+                with lib.quiet():
+                    k = 1 + op["idx"] % 5
+                    top = c1.topk_ranking(k)
+                    c1.evaluate_topk_ranking(list(top)[:1], k)
+                    repr(c1), len(c1), list(c1), c1.elements, c1.nb_elements, dict(c1.features)
+                if cons_view(c1) != seen_before:
+                    raise Violation("reading a consensus (score, description, top-%d, iteration) changed it: %s -> %s" % (
+                        k, seen_before, cons_view(c1)))
                 if not self.mutated and abs(float(a[0]) - float(b[0])) > 1e-9:
                     raise Violation("kemeny_score read on the shared consensus %r, on the fresh one %r" % (a[0], b[0]))
             self.runs.append("read")
@@ -204,6 +250,7 @@ class Interp:
             # raw data used for fresh copies and candidates
             self.raw = lib.normalized(new)
             self.mutated = True
+            self.first = {}
             self.d.name = "shared"
             self.snap0 = snapshot(self.d, self.s)
             fd, fs = self.fresh()
@@ -337,7 +384,7 @@ def machine_factory(ctx, tier):
                                     "kind": kind, "message": msg}
                 raise
 
-        @initialize(ds=gen.datasets(max_n=max_n, max_m=4), scheme=gen.any_schemes())
+        @initialize(ds=gen.datasets(max_n=max_n, max_m=4), scheme=st.one_of(gen.any_schemes(), gen.any_schemes(), gen.preset_multiples()))
         def init(self, ds, scheme):
             self.history = {"init": {"rankings": ds["rankings"], "scheme": scheme}, "ops": []}
             self.it = Interp(self.history["init"])
@@ -373,7 +420,10 @@ def machine_factory(ctx, tier):
                 env = "absent" if "absent" in cfg.envs else env
                 if env == "standin":
                     return
-            self._do({"op": "run", "config": name, "env": env, "flag": flag, "rng": rng})
+            op = {"op": "run", "config": name, "env": env, "flag": flag, "rng": rng}
+            if rng % 5 == 0:
+                op["k"] = [0.5, 2.0, 3.0][rng % 3]
+            self._do(op)
 
         @rule(idx=st.integers(0, 7))
         def read(self, idx):
